@@ -26,7 +26,7 @@ class LinguaMakoExtractor(Extractor, MessageExtractor):
         self.filename = filename
         self.python_extractor = get_extractor("x.py")
         if fileobj is None:
-            ctx = open(filename, "r")
+            ctx = open(filename, "rb")
         else:
             ctx = contextlib.nullcontext(fileobj)
         with ctx as file_:
